@@ -287,6 +287,15 @@ fn finalize_entry(fs: &Fs, entry: WorkingEntry, game: Game, emitter: &impl Emitt
     // this tends to produce the nicest error message.
     let texture_data = finalize_entry_texture(fs, &mut specs, &entry.path, entry.loaded_texture.as_ref())?;
 
+    // A path beginning with '@' names a texture that is created at runtime; such an entry never has an
+    // embedded image, and a file that gives it one cannot be read back.
+    if texture_data.is_some() && entry.path.starts_with("@") {
+        return Err(emitter.emit(error!(
+            message("entry '{}' cannot have an embedded image", entry.path),
+            note("paths beginning with '@' are runtime textures; use 'has_data: false'"),
+        )));
+    }
+
     // More defaults
     if let Some(img_width) = specs.img_width.into_option() {
         // (no default if the next power of two does not fit in a u32)
